@@ -98,13 +98,13 @@ Section Modes.
   Proof.
     induction c as [n x ch IH] using tree_ind'. intros Hcc prefix.
     apply chain_const_node in Hcc. destruct Hcc as [Hx Hch].
-    destruct (cl_cases NM ch) as [E|[[gn [gt E]]|Ho]].
+    destruct (cl_cases NM x ch) as [E|[[gn [gt [E Heq]]]|Ho]].
     - subst ch. reflexivity.
-    - subst ch. cbn [t_total] in Hx. subst x.
+    - subst ch. rewrite cl_child_join by exact Heq. cbn [t_total] in Hx. subst x.
       rewrite child_leaves_single, child_leaves_leaf.
-      cbn [cl_child flat_map leaf_sel app]. rewrite <- app_assoc. reflexivity.
+      cbn [flat_map leaf_sel app]. rewrite <- app_assoc. reflexivity.
     - rewrite (cl_child_other NM prefix n x ch Ho). cbn [flat_map leaf_sel app].
-      rewrite child_leaves_nonempty by (apply cl_other_nonempty, Ho).
+      rewrite child_leaves_nonempty by (apply (cl_other_nonempty NM x), Ho).
       rewrite flat_map_flat_map. apply flat_map_ext_Forall.
       eapply Forall_impl; [|exact (Forall_mp _ _ _ IH Hch)]. intros a Ha. apply Ha.
   Qed.
@@ -114,13 +114,13 @@ Section Modes.
       map fst (flat_map leaf_sel (cl_child NM prefix c)) = map fst (child_leaves NM prefix c).
   Proof.
     induction c as [n x ch IH] using tree_ind'. intros prefix.
-    destruct (cl_cases NM ch) as [E|[[gn [gt E]]|Ho]].
+    destruct (cl_cases NM x ch) as [E|[[gn [gt [E Heq]]]|Ho]].
     - subst ch. reflexivity.
-    - subst ch.
+    - subst ch. rewrite cl_child_join by exact Heq.
       rewrite child_leaves_single, child_leaves_leaf.
-      cbn [cl_child flat_map leaf_sel app map fst]. rewrite <- app_assoc. reflexivity.
+      cbn [flat_map leaf_sel app map fst]. rewrite <- app_assoc. reflexivity.
     - rewrite (cl_child_other NM prefix n x ch Ho). cbn [flat_map leaf_sel app].
-      rewrite child_leaves_nonempty by (apply cl_other_nonempty, Ho).
+      rewrite child_leaves_nonempty by (apply (cl_other_nonempty NM x), Ho).
       rewrite flat_map_flat_map, !map_flat_map. apply flat_map_ext_Forall.
       eapply Forall_impl; [|exact IH]. intros a Ha. apply Ha.
   Qed.
@@ -130,10 +130,11 @@ Section Modes.
       subseq (map dpath (cl_child NM prefix c)) (map fst (child_paths NM prefix c)).
   Proof.
     induction c as [n x ch IH] using tree_ind'. intros prefix.
-    destruct (cl_cases NM ch) as [E|[[gn [gt E]]|Ho]].
+    destruct (cl_cases NM x ch) as [E|[[gn [gt [E Heq]]]|Ho]].
     - subst ch. apply subseq_refl.
-    - subst ch. rewrite child_paths_node. cbn [flat_map]. rewrite child_paths_node.
-      cbn [cl_child flat_map map dpath fst app]. rewrite <- app_assoc. cbn [app].
+    - subst ch. rewrite cl_child_join by exact Heq.
+      rewrite child_paths_node. cbn [flat_map]. rewrite child_paths_node.
+      cbn [flat_map map dpath fst app]. rewrite <- app_assoc. cbn [app].
       apply subseq_skip, subseq_refl.
     - rewrite (cl_child_other NM prefix n x ch Ho). rewrite child_paths_node.
       cbn [map dpath fst]. apply subseq_keep.
@@ -145,7 +146,7 @@ Section Modes.
     forall prefix p, In p (child_forks NM prefix c) -> In p (map dpath (cl_child NM prefix c)).
   Proof.
     induction c as [n x ch IH] using tree_ind'. intros prefix p Hp.
-    destruct (cl_cases NM ch) as [E|[[gn [gt E]]|Ho]].
+    destruct (cl_cases NM x ch) as [E|[[gn [gt [E Heq]]]|Ho]].
     - subst ch. destruct Hp.
     - subst ch. destruct Hp.
     - rewrite (cl_child_other NM prefix n x ch Ho). cbn [map dpath fst].
@@ -166,11 +167,13 @@ Section Modes.
     induction t as [n x ch IH] using tree_ind'. intros Hcc pre tot Htot.
     cbn [t_total] in Htot. subst tot.
     apply chain_const_node in Hcc. destruct Hcc as [Hx Hch].
-    destruct (single_cases ch) as [[only E]|Hns].
-    - subst ch. rewrite dj_single, child_leaves_single.
+    destruct (jump_next_cases NM x ch) as [[only Hj]|Hj].
+    - rewrite (dj_follow NM _ _ _ _ _ _ Hj).
+      destruct (jump_next_some NM _ _ _ Hj) as [E _]. subst ch.
+      rewrite child_leaves_single.
       inversion IH as [|c r Hc _]; subst c r. inversion Hch as [|c r Hco _]; subst c r.
       apply Hc; assumption.
-    - rewrite dj_end by exact Hns. cbn [flat_map leaf_sel].
+    - rewrite (dj_stop NM _ _ _ _ _ Hj). cbn [flat_map leaf_sel].
       destruct ch as [|c1 r].
       + reflexivity.
       + cbn [is_nil app]. rewrite child_leaves_nonempty by discriminate.
@@ -184,10 +187,12 @@ Section Modes.
       map fst (flat_map leaf_sel (dj NM pre tot t)) = map fst (child_leaves NM pre t).
   Proof.
     induction t as [n x ch IH] using tree_ind'. intros pre tot.
-    destruct (single_cases ch) as [[only E]|Hns].
-    - subst ch. rewrite dj_single, child_leaves_single.
+    destruct (jump_next_cases NM x ch) as [[only Hj]|Hj].
+    - rewrite (dj_follow NM _ _ _ _ _ _ Hj).
+      destruct (jump_next_some NM _ _ _ Hj) as [E _]. subst ch.
+      rewrite child_leaves_single.
       inversion IH as [|c r Hc _]; subst c r. apply Hc.
-    - rewrite dj_end by exact Hns. cbn [flat_map leaf_sel].
+    - rewrite (dj_stop NM _ _ _ _ _ Hj). cbn [flat_map leaf_sel].
       destruct ch as [|c1 r].
       + reflexivity.
       + cbn [is_nil app]. rewrite child_leaves_nonempty by discriminate.
@@ -201,10 +206,12 @@ Section Modes.
   Proof.
     induction t as [n x ch IH] using tree_ind'. intros pre tot.
     rewrite child_paths_node. cbn [map fst].
-    destruct (single_cases ch) as [[only E]|Hns].
-    - subst ch. rewrite dj_single. cbn [flat_map]. rewrite app_nil_r.
+    destruct (jump_next_cases NM x ch) as [[only Hj]|Hj].
+    - rewrite (dj_follow NM _ _ _ _ _ _ Hj).
+      destruct (jump_next_some NM _ _ _ Hj) as [E _]. subst ch.
+      cbn [flat_map]. rewrite app_nil_r.
       apply subseq_skip. inversion IH as [|c r Hc _]; subst c r. apply Hc.
-    - rewrite dj_end by exact Hns. cbn [map dpath fst]. apply subseq_keep.
+    - rewrite (dj_stop NM _ _ _ _ _ Hj). cbn [map dpath fst]. apply subseq_keep.
       rewrite !map_flat_map. apply subseq_flat_map.
       eapply Forall_impl; [|exact IH]. intros a Ha. unfold dj_child. apply Ha.
   Qed.
@@ -214,10 +221,12 @@ Section Modes.
   Proof.
     induction t as [n x ch IH] using tree_ind'. intros pre tot p Hp.
     rewrite child_forks_node in Hp.
-    destruct (single_cases ch) as [[only E]|Hns].
-    - subst ch. rewrite dj_single. cbn [app flat_map] in Hp. rewrite app_nil_r in Hp.
+    destruct (jump_next_cases NM x ch) as [[only Hj]|Hj].
+    - rewrite (dj_follow NM _ _ _ _ _ _ Hj).
+      destruct (jump_next_some NM _ _ _ Hj) as [E _]. subst ch.
+      cbn [app flat_map] in Hp. rewrite app_nil_r in Hp.
       inversion IH as [|c r Hc _]; subst c r. apply Hc, Hp.
-    - rewrite dj_end by exact Hns. cbn [map dpath fst].
+    - rewrite (dj_stop NM _ _ _ _ _ Hj). cbn [map dpath fst].
       apply in_app_or in Hp. destruct Hp as [Hp|Hp].
       + left. destruct ch as [|a [|a2 r]]; cbn [In] in Hp; try contradiction.
         destruct Hp as [Hp|[]]. exact Hp.
@@ -233,11 +242,11 @@ Section Modes.
   Proof.
     induction c as [n x ch IH] using tree_ind'. intros Hcc prefix.
     apply chain_const_node in Hcc. destruct Hcc as [Hx Hch].
-    destruct (cl_cases NM ch) as [E|[[gn [gt E]]|Ho]].
+    destruct (cl_cases NM x ch) as [E|[[gn [gt [E Heq]]]|Ho]].
     - subst ch. apply subseq_refl.
-    - subst ch. cbn [t_total] in Hx. subst x.
+    - subst ch. rewrite cl_child_join by exact Heq. cbn [t_total] in Hx. subst x.
       rewrite child_paths_node. cbn [flat_map]. rewrite child_paths_node.
-      cbn [cl_child flat_map map dec_pa app]. rewrite <- app_assoc. cbn [app].
+      cbn [flat_map map dec_pa app]. rewrite <- app_assoc. cbn [app].
       apply subseq_skip, subseq_refl.
     - rewrite (cl_child_other NM prefix n x ch Ho). rewrite child_paths_node.
       cbn [map dec_pa]. apply subseq_keep.
@@ -254,12 +263,14 @@ Section Modes.
     cbn [t_total] in Htot. subst tot.
     apply chain_const_node in Hcc. destruct Hcc as [Hx Hch].
     rewrite child_paths_node.
-    destruct (single_cases ch) as [[only E]|Hns].
-    - subst ch. rewrite dj_single. cbn [flat_map]. rewrite app_nil_r.
+    destruct (jump_next_cases NM x ch) as [[only Hj]|Hj].
+    - rewrite (dj_follow NM _ _ _ _ _ _ Hj).
+      destruct (jump_next_some NM _ _ _ Hj) as [E _]. subst ch.
+      cbn [flat_map]. rewrite app_nil_r.
       apply subseq_skip.
       inversion IH as [|c r Hc _]; subst c r. inversion Hch as [|c r Hco _]; subst c r.
       apply Hc; assumption.
-    - rewrite dj_end by exact Hns. cbn [map dec_pa]. apply subseq_keep.
+    - rewrite (dj_stop NM _ _ _ _ _ Hj). cbn [map dec_pa]. apply subseq_keep.
       rewrite map_flat_map. apply subseq_flat_map.
       eapply Forall_impl; [|exact (Forall_mp _ _ _ IH Hch)].
       intros a Ha. unfold dj_child. apply Ha. reflexivity.
@@ -301,5 +312,189 @@ Section Modes.
     intros Hp. apply in_flat_map in Hp. destruct Hp as [g [Hg Hp]].
     destruct (node_under_leaf g _ _ _ Hp) as [Hne [s [y Hin]]].
     split; [assumption|]. exists s, y. apply in_flat_map. exists g. split; assumption.
+  Qed.
+
+  (** ** The node totals behind the rows (fix 3cc3ec3), for every tree *)
+  Notation rdec := (list bytes * list (bytes * T) * T * bool)%type.
+  Definition rd_nodes (rd : rdec) : list (list bytes * T) :=
+    let '(pp, chain, y, lf) := rd in chain_paths NM pp chain.
+  Definition rd_ok (rd : rdec) : Prop := let '(pp, chain, y, lf) := rd in joined_ok NM y chain.
+
+  Lemma Forall2_flat_map {A B C} (R : B -> C -> Prop) (f : A -> list B) (g : A -> list C) (l : list A) :
+    Forall (fun a => Forall2 R (f a) (g a)) l -> Forall2 R (flat_map f l) (flat_map g l).
+  Proof.
+    induction 1 as [|a l Ha _ IH]; cbn [flat_map]; [constructor|]. apply Forall2_app; assumption.
+  Qed.
+
+  Lemma Forall_flat_map {A B} (P : B -> Prop) (f : A -> list B) (l : list A) :
+    Forall (fun a => Forall P (f a)) l -> Forall P (flat_map f l).
+  Proof.
+    induction 1 as [|a l Ha _ IH]; cbn [flat_map]; [constructor|]. apply Forall_app. split; assumption.
+  Qed.
+
+  Lemma chain_paths_app pp (a c : list (bytes * T)) :
+    chain_paths NM pp (a ++ c) = chain_paths NM pp a ++ chain_paths NM (pp ++ map fst a) c.
+  Proof.
+    revert pp. induction a as [|[n x] a IH]; intros pp; cbn [app chain_paths map fst].
+    - rewrite app_nil_r. reflexivity.
+    - rewrite IH, <- app_assoc. reflexivity.
+  Qed.
+
+  (** *** the chains of a mode, read off, are the nodes of the tree in pre-order *)
+  Lemma rchild_nodes_paths (c : tree) :
+    forall prefix, flat_map rd_nodes (rchild_nodes NM prefix c) = child_paths NM prefix c.
+  Proof.
+    induction c as [n x ch IH] using tree_ind'. intros prefix.
+    rewrite rchild_nodes_node, child_paths_node. cbn [flat_map rd_nodes chain_paths app]. f_equal.
+    rewrite flat_map_flat_map. apply flat_map_ext_Forall.
+    eapply Forall_impl; [|exact IH]. intros a Ha. apply Ha.
+  Qed.
+
+  Lemma rcl_child_paths (c : tree) :
+    forall prefix, flat_map rd_nodes (rcl_child NM prefix c) = child_paths NM prefix c.
+  Proof.
+    induction c as [n x ch IH] using tree_ind'. intros prefix.
+    destruct (cl_cases NM x ch) as [E|[[gn [gt [E Heq]]]|Ho]].
+    - subst ch. reflexivity.
+    - subst ch. rewrite rcl_child_join by exact Heq. reflexivity.
+    - rewrite (rcl_child_other NM prefix n x ch Ho), child_paths_node.
+      cbn [flat_map rd_nodes chain_paths app]. f_equal.
+      rewrite flat_map_flat_map. apply flat_map_ext_Forall.
+      eapply Forall_impl; [|exact IH]. intros a Ha. apply Ha.
+  Qed.
+
+  Lemma rdj_paths (t : tree) :
+    forall pp tot acc,
+      flat_map rd_nodes (rdj NM pp tot acc t) =
+      chain_paths NM pp acc ++ child_paths NM (pp ++ map fst acc) t.
+  Proof.
+    induction t as [n x ch IH] using tree_ind'. intros pp tot acc.
+    rewrite child_paths_node.
+    destruct (jump_next_cases NM x ch) as [[only Hj]|Hj].
+    - rewrite (rdj_follow NM _ _ _ _ _ _ _ Hj).
+      destruct (jump_next_some NM _ _ _ Hj) as [E _]. subst ch.
+      inversion IH as [|c r Hc _]; subst c r.
+      rewrite Hc, chain_paths_app, map_fst_snoc. cbn [chain_paths flat_map].
+      rewrite app_nil_r, <- app_assoc. cbn [app]. rewrite (app_assoc pp). reflexivity.
+    - rewrite (rdj_stop NM _ _ _ _ _ _ Hj). cbn [flat_map rd_nodes].
+      rewrite chain_paths_app. cbn [chain_paths]. rewrite <- app_assoc. cbn [app]. do 2 f_equal.
+      rewrite flat_map_flat_map. apply flat_map_ext_Forall.
+      eapply Forall_impl; [|exact IH]. intros a Ha. unfold rdj_child.
+      rewrite Ha. cbn [chain_paths map app]. rewrite app_nil_r, app_assoc. reflexivity.
+  Qed.
+
+  Lemma rdj_child_paths (c : tree) :
+    forall pre, flat_map rd_nodes (rdj_child NM pre c) = child_paths NM pre c.
+  Proof.
+    intros pre. unfold rdj_child. rewrite rdj_paths. cbn [chain_paths map app].
+    rewrite app_nil_r. reflexivity.
+  Qed.
+
+  (** *** every row is an honest joined row *)
+  Lemma rchild_nodes_ok (c : tree) : forall prefix, Forall rd_ok (rchild_nodes NM prefix c).
+  Proof.
+    induction c as [n x ch IH] using tree_ind'. intros prefix.
+    rewrite rchild_nodes_node. constructor; [cbn; split; [reflexivity|exact I]|].
+    apply Forall_flat_map. eapply Forall_impl; [|exact IH]. intros a Ha. apply Ha.
+  Qed.
+
+  Lemma rcl_child_ok (c : tree) : forall prefix, Forall rd_ok (rcl_child NM prefix c).
+  Proof.
+    induction c as [n x ch IH] using tree_ind'. intros prefix.
+    destruct (cl_cases NM x ch) as [E|[[gn [gt [E Heq]]]|Ho]].
+    - subst ch. constructor; [cbn; split; [reflexivity|exact I]|constructor].
+    - subst ch. rewrite rcl_child_join by exact Heq.
+      constructor; [|constructor]. cbn [rd_ok joined_ok eq_from]. repeat split. exact Heq.
+    - rewrite (rcl_child_other NM prefix n x ch Ho).
+      constructor; [cbn; split; [reflexivity|exact I]|].
+      apply Forall_flat_map. eapply Forall_impl; [|exact IH]. intros a Ha. apply Ha.
+  Qed.
+
+  Lemma eq_from_snoc (r : list (bytes * T)) :
+    forall x0 n x m z, eq_from NM x0 (r ++ [(n, x)]) -> t_eqb NM z x = true ->
+      eq_from NM x0 ((r ++ [(n, x)]) ++ [(m, z)]).
+  Proof.
+    induction r as [|[k w] r IH]; intros x0 n x m z H Hz.
+    - cbn [app eq_from] in *. destruct H as [H _]. repeat split; assumption.
+    - cbn [app eq_from] in *. destruct H as [H1 H2]. split; [exact H1|]. apply IH; assumption.
+  Qed.
+
+  Lemma joined_ok_snoc (acc : list (bytes * T)) y n x m z :
+    joined_ok NM y (acc ++ [(n, x)]) -> t_eqb NM z x = true ->
+    joined_ok NM y ((acc ++ [(n, x)]) ++ [(m, z)]).
+  Proof.
+    destruct acc as [|[k w] r]; cbn [app joined_ok]; intros [H1 H2] Hz.
+    - split; [exact H1|]. cbn [eq_from]. split; [exact Hz|exact I].
+    - split; [exact H1|]. apply eq_from_snoc; assumption.
+  Qed.
+
+  Lemma rdj_ok (t : tree) :
+    forall pp tot acc, joined_ok NM tot (acc ++ [(t_name NM t, t_total NM t)]) ->
+      Forall rd_ok (rdj NM pp tot acc t).
+  Proof.
+    induction t as [n x ch IH] using tree_ind'. intros pp tot acc Hok. cbn [t_name t_total] in Hok.
+    destruct (jump_next_cases NM x ch) as [[only Hj]|Hj].
+    - rewrite (rdj_follow NM _ _ _ _ _ _ _ Hj).
+      destruct (jump_next_some NM _ _ _ Hj) as [E Heq]. subst ch.
+      inversion IH as [|c r Hc _]; subst c r.
+      apply Hc. apply joined_ok_snoc; assumption.
+    - rewrite (rdj_stop NM _ _ _ _ _ _ Hj). constructor; [exact Hok|].
+      apply Forall_flat_map. eapply Forall_impl; [|exact IH]. intros a Ha. unfold rdj_child.
+      apply Ha. cbn [app joined_ok eq_from]. split; [reflexivity|exact I].
+  Qed.
+
+  Lemma rdj_child_ok (c : tree) : forall pre, Forall rd_ok (rdj_child NM pre c).
+  Proof.
+    intros pre. unfold rdj_child. apply rdj_ok. cbn [app joined_ok eq_from]. split; [reflexivity|exact I].
+  Qed.
+
+  (** plain mode: every chain is a single node *)
+  Definition rd_single (rd : rdec) : Prop := let '(pp, chain, y, lf) := rd in exists n, chain = [(n, y)].
+
+  Lemma rchild_nodes_single (c : tree) : forall prefix, Forall rd_single (rchild_nodes NM prefix c).
+  Proof.
+    induction c as [n x ch IH] using tree_ind'. intros prefix.
+    rewrite rchild_nodes_node. constructor; [exists n; reflexivity|].
+    apply Forall_flat_map. eapply Forall_impl; [|exact IH]. intros a Ha. apply Ha.
+  Qed.
+
+  (** *** the leaves without any hypothesis on the totals: same paths, Go-equal amounts *)
+  Notation same := (same_path_go_equal NM).
+
+  Lemma cl_child_leaves_go (c : tree) :
+    forall prefix, Forall2 same (flat_map leaf_sel (cl_child NM prefix c)) (child_leaves NM prefix c).
+  Proof.
+    induction c as [n x ch IH] using tree_ind'. intros prefix.
+    destruct (cl_cases NM x ch) as [E|[[gn [gt [E Heq]]]|Ho]].
+    - subst ch. cbn. constructor; [|constructor]. split; [reflexivity|apply gec_refl].
+    - subst ch. rewrite cl_child_join by exact Heq.
+      rewrite child_leaves_single, child_leaves_leaf. cbn [flat_map leaf_sel app].
+      constructor; [|constructor]. split; cbn [fst snd].
+      + rewrite <- app_assoc. reflexivity.
+      + eapply gec_step; [apply gec_refl|exact Heq].
+    - rewrite (cl_child_other NM prefix n x ch Ho). cbn [flat_map leaf_sel app].
+      rewrite child_leaves_nonempty by (apply (cl_other_nonempty NM x), Ho).
+      rewrite flat_map_flat_map. apply Forall2_flat_map.
+      eapply Forall_impl; [|exact IH]. intros a Ha. apply Ha.
+  Qed.
+
+  Lemma dj_leaves_go (t : tree) :
+    forall pre tot, go_eq_chain NM tot (t_total NM t) ->
+      Forall2 same (flat_map leaf_sel (dj NM pre tot t)) (child_leaves NM pre t).
+  Proof.
+    induction t as [n x ch IH] using tree_ind'. intros pre tot Htot. cbn [t_total] in Htot.
+    destruct (jump_next_cases NM x ch) as [[only Hj]|Hj].
+    - rewrite (dj_follow NM _ _ _ _ _ _ Hj).
+      destruct (jump_next_some NM _ _ _ Hj) as [E Heq]. subst ch.
+      rewrite child_leaves_single.
+      inversion IH as [|c r Hc _]; subst c r.
+      apply Hc. eapply gec_step; [exact Htot|exact Heq].
+    - rewrite (dj_stop NM _ _ _ _ _ Hj). cbn [flat_map leaf_sel].
+      destruct ch as [|c1 r].
+      + cbn. constructor; [|constructor]. split; [reflexivity|exact Htot].
+      + cbn [is_nil app]. rewrite child_leaves_nonempty by discriminate.
+        rewrite flat_map_flat_map. apply Forall2_flat_map.
+        eapply Forall_impl; [|exact IH].
+        intros a Ha. unfold dj_child. apply Ha. apply gec_refl.
   Qed.
 End Modes.
